@@ -14,6 +14,8 @@
 //	vb <base> m=<mut>   Ledger.VerifyBlock on a node-formatted block after one mutation -> accept|reject|n/a
 //	                    known=1: the honest block was confirmed on this ledger before; stored=1: the mutated block
 //	                    extends the tip of the ledger and, if it passes, is confirmed and read back from storage
+//	fb <base> via=miner|block f=<i>   Format(Miner)Block with the i-th crypto request failing -> refused|verifies|unverifiable
+//	vf <base> m=<mut> f=<i>           VerifyBlock with the i-th crypto request failing          -> accept|reject|n/a  (fault.go)
 //
 // C07 op lines: see tx.go.
 package main
@@ -63,7 +65,7 @@ func main() {
 		out.Emit(line, r)
 		out.Case(line, nontrivial)
 		kind := strings.Fields(line)[0]
-		if kind == "vb" || kind == "vt" || kind == "sig" || kind == "vc" || kind == "sx" {
+		if kind == "vb" || kind == "fb" || kind == "vf" || kind == "vt" || kind == "sig" || kind == "vc" || kind == "sx" {
 			out.Count(kind + ":" + r)
 		} else {
 			out.Count(kind)
